@@ -1051,6 +1051,7 @@ def judge_overlap(case, res):
         form = f"tversky_index/only-{which}/{mform(mk)}"
         wt = None
         if mk:
+            form += "/pred=1ch" if Cc == 1 else "/pred=Cch"
             wt = T(np.broadcast_to(np_mask(mk, shape), shape).astype(np.float64))  # full (N, C, ..., X) weight
         st, v = run(F_.tversky_index, T(pred), T(t), weight=wt, reduction="none", **kw)
         got = val(st, v, form, f"tversky_index({kw})")
